@@ -75,6 +75,17 @@ def run(ck):
         if w2f[1] != wf[1] or numpy.abs(w2f[5] - wf[5]).max() > 1e-9 * scw or abs(w2f[4] - wf[4]) > 1e-9 * sc:
             ck.fail("axis:freq-time-freq", "frequency axis -> time axis -> frequency axis is not the identity", inp,
                     float(numpy.abs(w2f[5] - wf[5]).max()) if w2f[1] == wf[1] else "length")
+        # the copy of a derived frequency axis (what the spectrum classes keep) maps back to the same time axis
+        if h % 2 == 1:
+            try:
+                with (energy_units(ctx) if ctx else energy_units("int")):
+                    tc = w.copy().get_TimeAxis()
+                if (tc.length != N or tc.atype != t.atype or abs(tc.start - start) > 1e-9 * sc or abs(tc.step - dt) > 1e-12 * abs(dt)
+                        or numpy.abs(numpy.array(tc.data) - numpy.array(t.data)).max() > 1e-9 * sc):
+                    ck.fail("axis:time-freq-copy-time", "time axis -> frequency axis -> copy() -> time axis is not the identity", inp,
+                            [tc.start, tc.length, tc.step, tc.atype])
+            except Exception as e:
+                ck.fail("raises:axes:copy", "copy of a frequency axis / its time axis raised %r" % (e,), inp)
         # a history on ONE axis object: asked for its frequency axis (above), then moved (shift_to_zero) or given another frequency
         # origin, then asked again: the answer is that of a fresh axis with the present parameters, and it maps back to the present axis
         if h % 3 == 0:
@@ -209,6 +220,27 @@ def run(ck):
                         dict(inp, units=uc), du)
         except Exception as e:
             ck.fail("raises:ft:units-context", "transform inside a units context raised %r" % (e,), inp)
+        # a refused request in between (axis of a type the transforms do not know): the function and its later transforms are as before
+        if h % 3 == 1:
+            try:
+                at0 = f.axis.atype
+                f.axis.atype = "other"
+                refused = 0
+                for meth in (f.get_inverse_Fourier_transform, f.get_Fourier_transform):
+                    try:
+                        meth()
+                    except Exception:
+                        refused += 1
+                f.axis.atype = at0
+                ck.dist["refused transforms in a history=%d" % refused] += 1
+                F3 = numpy.array(f.get_Fourier_transform().data)
+                d3 = max(float(numpy.abs(F3 - Fd).max()) / sc if len(F3) == len(Fd) else float("inf"),
+                         float(numpy.abs(numpy.array(f.data) - y).max()) / max(yscale, 1e-300))
+                if d3 > 1e-12 * N:
+                    ck.fail("history:after-refused-transform", "after a refused transform the function or its Fourier transform differs from before",
+                            dict(inp, history="axis type set to an unknown one; transforms refused; axis type restored; get_Fourier_transform"), d3)
+            except Exception as e:
+                ck.fail("raises:ft:after-refused", "history with a refused transform raised %r" % (e,), inp)
         # a window function handed to the transform: the result is the Fourier sum of the windowed values
         if h % 4 == 2:
             try:
